@@ -31,6 +31,7 @@ V = {
     "borrow": '#[::entrait::entrait(delegate_by = Borrow)]\npub trait A10 { fn m(&self, a: i64) -> i64; }',
     # options that have no effect on the item they are given for (nothing async here)
     "noop_opts": '#[::entrait::entrait(A12, ?Send)]\nfn a12(deps: &impl ::core::any::Any, x: i64) -> i64 { x }\n#[::entrait::entrait(pub A13, ?Send, mockall = false, unimock = false)]\npub mod m13 {\n    pub fn x(deps: &impl ::core::any::Any) {}\n}',
+    "debug": '#[::entrait::entrait(A14, debug)]\nfn a14(deps: &impl ::core::any::Any, x: i64) -> i64 { x }',
     "rename": '#[::entrait::entrait(A9)]\nfn a9(deps: &impl ::core::any::Any, a9: i64, a9_: i64, a9__: i64, (u, v): (u8, u8)) {}',
 }
 VN = list(V)
